@@ -144,6 +144,9 @@ func C03(args []string) error {
 	}
 	sym := newC03Sym()
 	hx.Parallel(len(vecs), *par, func(i int) {
+		if slowBudget.Exhausted() {
+			return
+		}
 		o := c03Table(i+1, vecs[i], reqs, sym)
 		out.Write(o)
 	})
